@@ -697,6 +697,42 @@ impl Tally {
     }
 }
 
+/// Crowds: N different announcers (node ids, ports) / N different signers on ONE info_hash, then a lookup of it, for N around
+/// the size of an answer (20 peers / 10 signed announcements: an answer is a random sample once more are stored), a few more
+/// announces and lookups, and a second info_hash beside it.
+pub fn crowd_probes(id0: u64) -> Vec<Value> {
+    let mut v = vec![];
+    let from = json!({"ip": "a", "port": 1001});
+    let tok = json!({"kind":"issued","step":0});
+    let mut id = id0;
+    for signed in [false, true] {
+        for n in [1usize, 9, 10, 11, 19, 20, 21, 22, 40] {
+            let mut steps = vec![json!({"kind": if signed { "getspeers" } else { "getpeers" }, "from": from, "t": "h1"})];
+            let ann = |j: usize, h: &str| {
+                if signed {
+                    json!({"kind":"sannounce","from":from,"tok":tok,"t":h,"k":format!("k{}", 20 + j),"ts":0,"dt":0,"sigok":true})
+                } else {
+                    json!({"kind":"announce","from":from,"tok":tok,"t":h,"nid":format!("n{}", 20 + j),"port":100 + j,"implied":false})
+                }
+            };
+            let get = |h: &str| json!({"kind": if signed { "getspeers" } else { "getpeers" }, "from": from, "t": h});
+            for j in 0..n {
+                steps.push(ann(j, "h1"));
+            }
+            steps.push(get("h1"));
+            steps.push(ann(0, "h2"));
+            steps.push(get("h1"));
+            steps.push(ann(n, "h1"));
+            steps.push(get("h1"));
+            steps.push(get("h2"));
+            steps.push(json!({"kind":"ping","from":from}));
+            v.push(json!({"b": id, "filter": "allow", "caps": {"imm": 1000, "mut": 1000, "hash": 2000, "peers": 500}, "steps": steps}));
+            id += 1;
+        }
+    }
+    v
+}
+
 pub fn run(args: &Args) -> i32 {
     let seed = args.u64("seed", 1);
     let mut out = Out::create(&args.str("out", "/verif/work/server/trace.ndjson"));
@@ -746,8 +782,8 @@ pub fn run(args: &Args) -> i32 {
     let len = args.u64("len", 30) as usize;
     let focus = args.str("focus", "C03");
     let mut rng = Rng::new(seed.wrapping_mul(77).wrapping_add(5));
-    if n > 0 {
-        for b in lru_probes(2_000_000) {
+    if n > 0 || args.u64("probes", 0) > 0 {
+        for b in lru_probes(2_000_000).into_iter().chain(crowd_probes(3_000_000)) {
             let r = replay(&b, &mut out, seed);
             t.add(&b, r);
         }
